@@ -11,6 +11,7 @@ from .lie_common import lib_call, SO3_CORPUS_AXANG
 
 PI = np.pi
 SHARDS = {"quick": 16, "thorough": 16}
+REQUIRED_REACH = ['SO3DcmLieGroup.from_Mrp', 'SO3DcmLieGroup.from_Quat', 'SO3QuatLieGroup.from_Matrix', 'SO3QuatLieGroup.from_Mrp', 'SO3MrpLieGroup.from_Quat', 'SO3MrpLieGroup.shadow_if_necessary', 'SO3EulerLieGroup.from_Matrix']
 RULE = ("rotations from axis-angle (all axes incl. coordinate axes and (1,1,0), (1,1,1); angles 0, denormal..pi incl. exactly pi; "
         "rotations placed on all four matrix->quaternion branches and their ties; Euler triples incl. pitch = +-pi/2 exactly and "
         "+-(pi/2-5e-4) and +-(pi/2 - 1.5e-3)); sources expressed by the oracle in each parameterisation incl. negative-scalar "
